@@ -163,7 +163,10 @@ impl LuaModuleIndex {
 
         let node = self.module_nodes.get_mut(&parent_node_id)?;
 
-        node.file_ids.push(file_id);
+        // keep the files that share one module name ordered by file id, so that the one `find_module`
+        // picks does not depend on the order in which they were (re-)analysed
+        let idx = node.file_ids.partition_point(|it| *it <= file_id);
+        node.file_ids.insert(idx, file_id);
         let module_name = {
             let name = module_parts.last()?;
             name.to_string()
@@ -183,10 +186,9 @@ impl LuaModuleIndex {
 
         self.file_module_map.insert(file_id, module_info);
         if self.fuzzy_search {
-            self.module_name_to_file_ids
-                .entry(module_name)
-                .or_default()
-                .push(file_id);
+            let file_ids = self.module_name_to_file_ids.entry(module_name).or_default();
+            let idx = file_ids.partition_point(|it| *it <= file_id);
+            file_ids.insert(idx, file_id);
         }
 
         Some(())
